@@ -10,10 +10,11 @@
 From Coq Require Import List Ascii String ZArith Bool.
 From Shexer Require Import Lib.PyStr Model.Table Model.EntryC20 Model.EntryC06.
 From Shexer Require Import Model.EntryPipe Model.EntryBin64 Model.EntryC17 Model.EntryC11 Model.EntryC10 Model.EntryC16 Model.EntryC08 Model.EntryC05.
+From Shexer Require Import Model.EntryC07 Model.EntryC03 Model.EntryC15.
 Import ListNotations.
 
 Definition entries : list (str -> table -> option table) :=
-  [entry_c20; entry_c06; entry_pipe; entry_bin64; entry_c17; entry_c11; entry_c10; entry_c16; entry_c08; entry_c05].
+  [entry_c20; entry_c06; entry_pipe; entry_bin64; entry_c17; entry_c11; entry_c10; entry_c16; entry_c08; entry_c05; entry_c07; entry_c07b; entry_c03; entry_c15].
 
 Fixpoint dispatch (l : list (str -> table -> option table)) (name : str) (t : table) : table :=
   match l with
